@@ -19,7 +19,9 @@ Correspondence streams (implementation vs the model executed in 192-bit arithmet
   reuse   : ONE object serves several calls with every per-call argument varied (B, F, rank, rotation, covariances,
             init_state), the caller re-using one set of buffers in place; each call = the call on a fresh object.
 Oracles on the real code (the property's own clauses)
-  recursion : rot/vel/pos against the documented sequential recursion evaluated in 192 bits (`imu.hist` mode 1);
+  recursion : rot/vel/pos against the sequential recursion in C16's wording (gravity removed inside the acceleration,
+              R = R0*dR, v = v0 + R0*dv, p = p0 + R0*dp + v0*t) evaluated in 192 bits (`imu.hist` mode 1) — NOT the formula
+              of the docstring of forward/predict, which writes dR*R0 and puts the gravity outside (see Props/C16.lean §10);
   chunk     : chunked outputs == one-call outputs (rot, vel, pos; and the carried covariance);
   rank      : (H) == (1,1,H), (F,H) == (1,F,H) bit for bit;
   psd       : returned covariance symmetric and positive semidefinite;
@@ -49,7 +51,13 @@ META = {
     "trusted": ["torch.cumsum / cat / einsum / eye / diag_embed / sum semantics (external kernels, modelled as prefix sums etc.)",
                 "module parameters (gravity, gyro_cov, acc_cov) are given as float32-representable numbers and the module is "
                 "moved to the input dtype with .to(dtype) (torch module convention; a float32 module rejects float64 input)"],
-    "assumptions": ["dt > 0 (quantifier: dt in [1e-4, 1]); F >= 1 frames per call",
+    "assumptions": ["'the recursion' = the step-by-step form of what integrate+predict compute, in the wording of property C16; the "
+                    "docstring of forward/predict differs in convention (R_j = dR*R_i, +g*dt terms outside, noise without 1/dt): "
+                    "theorems doc_form_of_start_rotation / doc_order_differs / cov_eq_recursion state the relation",
+                    "dt > 0 for the covariance clause (the noise term divides by dt; FrameOk); F >= 1 frames per call; "
+                    "constructor guard reset or prop_cov",
+                    "rank equivalence (H)/(F,H)/(B,F,H) is carried by the harness (bit-identical calls on the real code + shape stream), "
+                    "the model's forwardItem is defined as validate-lift-call",
                     "chunk_invariant / cov theorems: initial rotation and every increment Exp(w dt) are unit quaternions "
                     "(exact for |w dt| > eps and for w dt = 0; see partial)"],
     "partial": ["chunk invariance of vel/pos for NON-unit increments (Taylor band 0 < |w dt| <= eps of so3 Exp): proved exactly up to "
@@ -1502,7 +1510,7 @@ def compare_model(ctx: Ctx, reps, metas):
         reps = par_driver(ctx, [model_line(c, D, b, 1, False) for c, D, b, _ in suspects])
         for rep, (case, D, b, impl) in zip(reps, suspects):
             sc = split_reply(case, parse_floats(rep))
-            probs = cmp_streams(case, D, b, impl, sc, starts_from_model(case, D, b, sc), "documented recursion")
+            probs = cmp_streams(case, D, b, impl, sc, starts_from_model(case, D, b, sc), "sequential recursion")
             for kind, p in probs:
                 if kind in ("rot", "vel", "pos"):
                     ctx.fail({**strip(case), "oracle": "recursion", "item": b}, "recursion: " + p)
@@ -1580,7 +1588,7 @@ def run_integrate(ctx: Ctx, cases):
                 msg = f"integrate item {b} frame {j}: block '{name}' off by {float(e[j]):.3e} > {float(t[j]):.3e}"
                 ctx.disagree("integrate", c1, msg)
                 ctx.fail({**c1, "oracle": "recursion", "item": b},
-                         "recursion: increments returned by integrate() are not the documented recursion (theorem par_eq_seq_integrate: "
+                         "recursion: increments returned by integrate() are not the sequential recursion of C16 (theorem par_eq_seq_integrate: "
                          "model = recursion): " + msg)
                 break
 
@@ -2048,7 +2056,7 @@ def search(ctx: Ctx):
     reps = par_driver(ctx, lines)
     for rep, (case, D, b, impl) in zip(reps, metas):
         sc = split_reply(case, parse_floats(rep))
-        probs = [p for k, p in cmp_streams(case, D, b, impl, sc, starts_from_model(case, D, b, sc), "documented recursion")
+        probs = [p for k, p in cmp_streams(case, D, b, impl, sc, starts_from_model(case, D, b, sc), "sequential recursion")
                  if k in ("rot", "vel", "pos")]
         if probs:
             ctx.fail({**strip(case), "oracle": "recursion", "item": b}, "recursion: " + probs[0])
@@ -2083,7 +2091,7 @@ def replay(ctx: Ctx, case) -> bool:
             reps = par_driver(ctx, [model_line(c, D, b, 1, False) for b in range(c["B"])])
             for b, rep in enumerate(reps):
                 sc = split_reply(c, parse_floats(rep))
-                for k, p in cmp_streams(c, D, b, impl, sc, starts_from_model(c, D, b, sc), "documented recursion"):
+                for k, p in cmp_streams(c, D, b, impl, sc, starts_from_model(c, D, b, sc), "sequential recursion"):
                     if k in ("rot", "vel", "pos"):
                         ctx.fail({**strip(c), "oracle": "recursion", "item": b}, "recursion: " + p)
         except Exception as e:
